@@ -49,7 +49,19 @@ def cache_keys(ctx, scopes, what):
                 if miss_p or miss_a:
                     ctx.violate(qual, 'memo %s is looked up with `%s`, but the cached value also depends on %s' % (memo.container, norm(memo.lookup_key), ', '.join(miss_p + miss_a)), memo.store_node,
                                 'two calls that differ only in %s share one cache entry: the second gets the result of the first' % ', '.join(miss_p + miss_a))
-    ctx.saw('%s: %d functions scanned for keyed memos, %d found' % (what, n_fn, n_memo))
+    # memoising decorators (functools.lru_cache / cache on methods): the key is (self, args) with self compared by the class's equality
+    n_dec = 0
+    for modname in sorted(set(mn for mn, _ in scopes)):
+        m = ctx.repo.mod(modname)
+        for cname, mname, deco, missing, custom_eq in cache.decorator_memos(m):
+            n_dec += 1
+            qual = '%s:%s.%s' % (modname, cname, mname)
+            ctx.saw('%s is memoised by @%s; state read but not part of the key: %s' % (qual, deco, missing))
+            if missing:
+                ctx.violate(qual, '@%s keys the cache on (self, arguments); %s compares objects by %s, but the method also reads %s' % (
+                    deco, cname, 'a subset of their state (__eq__ / __hash__)' if custom_eq else 'identity while these attributes change after construction', ', '.join('self.' + a for a in missing[:6])), ctx.repo.func(qual),
+                            'two objects that are "equal" for the cache but differ in %s share one entry: the second gets the result computed for the first' % missing[0])
+    ctx.saw('%s: %d functions scanned for keyed memos, %d found; %d decorator memos' % (what, n_fn, n_memo, n_dec))
 
 
 def _attr_fixture_selftest(ctx):
